@@ -7,13 +7,14 @@
    update counts that may have preceded it; some prefix in the window must
    explain it (trace validation against C13_rw_atomic). *)
 From Coq Require Import List NArith ZArith Bool.
-From Verif Require Export Model.Announcer.
+From Verif Require Export Model.Announcer Model.AnnouncerExt.
 Import ListNotations.
 
 Inductive obs :=
   | OShould (i : ip) (intf : N) (d : drop)
   | ORc (i : ip) (c : Z)
   | OGrp (intf g : N) (c : Z)
+  | OMem (intf g : N) (c : Z)   (* sockets of the responder on intf joined to group g (kernel) *)
   | OMemSum (g : N) (c : Z)     (* sockets joined to group g (kernel), summed over the NDP responders *)
   | OGrat (a : adv) (sent : list (bool * N))
   | OGratN (a : adv) (n : N)
@@ -29,6 +30,7 @@ Definition obs_ok (s : st) (o : obs) : bool :=
   | OShould i intf d => drop_eqb (should_announce s i intf) d
   | ORc i c => Z.eqb (rc s i) c
   | OGrp intf g c => Z.eqb (grp s intf g) c
+  | OMem intf g c => Z.eqb (mem s intf g) c
   | OMemSum g c => Z.eqb (fold_left (fun acc i => (acc + mem s i g)%Z) (ndps s) 0%Z) c
   | OGrat a sent => let m := gratuitous s a in
                     subset m sent && subset sent m && Nat.eqb (length m) (length sent)
@@ -80,3 +82,20 @@ Definition tcase_ok (c : tcase) : bool :=
 
 Definition tmismatches (cs : list tcase) : list N :=
   map tc_id (filter (fun c => negb (tcase_ok c)) cs).
+
+(* ---- histories with interface rescans (the REAL updateInterfaces on veth interfaces) ---- *)
+Inductive cev := CSet (name : N) (a : adv) | CDel (name : N) | CRescan (ar nd : list N).
+Record xcase := mk_xcase { xc_id : N; xc_steps : list (cev * list obs) }.
+Definition apply_cev (s : st) (e : cev) : st :=
+  match e with
+  | CSet n a => set_balancer n a s
+  | CDel n => delete_balancer n s
+  | CRescan ar nd => rescan ar nd s
+  end.
+Fixpoint xsteps_ok (s : st) (l : list (cev * list obs)) : bool :=
+  match l with
+  | [] => true
+  | (e, os) :: r => let s' := apply_cev s e in forallb (obs_ok s') os && xsteps_ok s' r
+  end.
+Definition xmismatches (cs : list xcase) : list N :=
+  map xc_id (filter (fun c => negb (xsteps_ok (init [] []) (xc_steps c))) cs).
